@@ -64,8 +64,9 @@ def main():
     if confirmed:
         out = VERIF / "seeded" / name
         out.mkdir(parents=True, exist_ok=True)
-        shutil.copy(mdir / "patch.diff", out / "patch.diff")
-        shutil.copy(mdir / "demo.py", out / "demo.py")
+        if mdir.resolve() != out.resolve():
+            shutil.copy(mdir / "patch.diff", out / "patch.diff")
+            shutil.copy(mdir / "demo.py", out / "demo.py")
         (out / "meta.json").write_text(json.dumps(meta, indent=1) + "\n")
         print("kept as", out)
     else:
